@@ -19,6 +19,8 @@ def to_simple(x):
             args = x.get("args")
             if args is None:
                 a = {}
+            elif type(args) is not list:
+                a = to_simple(args)          # not the documented shape (shape_violation reports it): read it as the sole argument
             else:
                 a = [to_simple(v) for v in args]
                 if len(a) == 1:
@@ -103,6 +105,11 @@ def oracle(ctx, rnd, parser, sql, nullkw, ac):
                                     requires="to_simple(parse(sql, calls=normal_op)) == parse(sql)", to_simple=short(to_simple(N), 1000)))
         return n
     sv = shape_violation(N)
+    known = ctx.finding_keys()
+    if sv and ".range." in sv and "C12:frame-bound-simplified-early" in known:
+        fd = known["C12:frame-bound-simplified-early"]
+        ctx.known(fd["key"], "%s e.g. %s" % (fd["what"], fd["witness"]))
+        sv = None
     if sv:
         ctx.violation("input", dict(call=call, returned_normal=short(N, 1000), observed=sv, requires="args a non-empty list, kwargs a non-empty dict when present"))
         return n
@@ -139,7 +146,12 @@ def run(ctx):
     # expressions that the grammar scrubs while it is still matching (window frame bounds): they see the callback that is installed at that moment
     stmts += [("common_parser", s) for s in ("select sum(x) over (order by b range between a + 1 preceding and current row) from t",
                                              "select sum(x) over (order by b range n * 2 preceding) from t, u where f(a + 1, b) = g(c)",
-                                             "select max(x) over (partition by p order by b range between a - 1 preceding and c * 2 following) from t")]
+                                             "select max(x) over (partition by p order by b range between a - 1 preceding and c * 2 following) from t",
+                                             "select sum(x) over (order by b range f(a) preceding) from t",
+                                             # simplification must happen once, at the end: parse actions that assemble clauses must not simplify on the way
+                                             "with a as (select f(x)) (with b as (select g(1)) select h(2))",
+                                             "create table t as with a as (select f(x)) (with b as (select g(1)) select h(2))",
+                                             "(select f(x) from t) order by g(a) limit 3", "select f(x) from t union all (select g(y) from u) order by h(a)")]
     cases, meta = [], []
     for parser, sql in stmts:
         combos = [(nk, ac) for nk in ({}, {"null": None}) for ac in (None, "*")]
